@@ -33,6 +33,14 @@ var c42Scenarios = []*c42Scenario{
 		Alpha:  []string{"W1", "W2", "W3", "R0:1:a1", "R0:1:aX", "R0:2:a1", "R0:2:aX", "E0", "C0", "A"},
 		DepthQ: 5, DepthT: 7, Props: []string{"C42", "C43"},
 	},
+	{ // per-type protocol state across stream restarts while a type has no subscriptions:
+		// starts with T2/a and T1/a watched and T1 accepted, so that within the
+		// bound a type can be emptied, the stream restarted and the type re-subscribed
+		Name: "ads-restart", NServers: 1, Slow: -1, Watchers: c42WTypes, Dt: c42Expiry,
+		Prefix: []string{"W2", "W1", "R0:1:a1"},
+		Alpha:  []string{"W1", "W2", "R0:1:a1", "R0:2:a1", "E0", "C0", "A"},
+		DepthQ: 4, DepthT: 6, Props: []string{"C42", "C43"},
+	},
 	{ // unknown type and empty responses
 		Name: "ads-odd", NServers: 1, Slow: -1, Watchers: c42WTypes, Dt: c42Expiry,
 		Alpha:  []string{"W1", "W2", "U0", "R0:1:-", "R0:2:-", "R0:1:a1", "R0:2:a1", "E0"},
